@@ -20,6 +20,7 @@ import (
 	"sync"
 
 	"github.com/saucelabs/forwarder"
+	"github.com/saucelabs/forwarder/hostsfile"
 	"github.com/saucelabs/forwarder/pac"
 
 	"verifharness/coqfmt"
@@ -201,6 +202,100 @@ var rHosts = []string{"", "a.test", "b.test", "::1", "10.0.0.1"}
 var rPorts = []string{"", "80", "443"}
 var rAddrs = []string{"a.test:80", "a.test:443", "b.test:80", "c.test:8080", "[::1]:80", "10.0.0.1:443", "a.test", "a.test:", ":80", "[::1]", "a:b:80", "A.test:80"}
 
+// ---------------------------------------------------------------- H: history independence of the resolver
+type hJSON struct {
+	Kind    string      `json:"kind"`
+	PAC     pacDesc     `json:"pac"`
+	Pooled  bool        `json:"pooled"`
+	Queries [][2]string `json:"queries"` // url, hostname argument ("" = from the URL)
+}
+
+func genHistory(r *rng.R, corpus bool) hJSON {
+	h := hJSON{Kind: "history", PAC: pacDesc{Table: map[string]string{}, Default: "DIRECT", ByURL: map[string][3]string{}}}
+	if corpus { // the scenario of seeded/C05-pac-result-memo-keyed-by-host
+		h.PAC.ByURL["origin.test"] = [3]string{"http:", "PROXY pa.test:3128", "PROXY pb.test:8443"}
+		h.Queries = [][2]string{{"http://origin.test/", ""}, {"//origin.test:443", ""}, {"https://origin.test/x", ""}, {"http://origin.test/y", ""}}
+		return h
+	}
+	h.Pooled = r.Chance(1, 2)
+	hosts := []string{"origin.test", "other.test", "localhost"}
+	for _, hn := range hosts {
+		switch r.Intn(4) {
+		case 0:
+			h.PAC.Table[hn] = genPacValue(r)
+		case 1:
+			h.PAC.ErrHosts = append(h.PAC.ErrHosts, hn)
+		default:
+			h.PAC.ByURL[hn] = [3]string{r.Pick([]string{"http:", "https:", ":8080", ":443", "/p", "//"}), genPacValue(r), genPacValue(r)}
+		}
+	}
+	n := 2 + r.Intn(4)
+	for i := 0; i < n; i++ {
+		hn := r.Pick(hosts)
+		if i > 0 && r.Chance(2, 3) { // mostly consecutive look-ups for the same host with another URL
+			prev, _ := url.Parse(h.Queries[i-1][0])
+			hn = prev.Hostname()
+		}
+		port := r.Pick([]string{"", ":80", ":8080", ":443"})
+		var u string
+		switch r.Intn(3) {
+		case 0:
+			u = "http://" + hn + port + r.Pick([]string{"/", "/p", "/inner"})
+		case 1:
+			u = "https://" + hn + port + r.Pick([]string{"/", "/p"})
+		default:
+			if port == "" {
+				port = ":443"
+			}
+			u = "//" + hn + port
+		}
+		h.Queries = append(h.Queries, [2]string{u, ""})
+	}
+	return h
+}
+
+func coqOptStr(s string, err error) string {
+	if err != nil {
+		return "None"
+	}
+	return "(Some " + cs(s) + ")"
+}
+
+func hCase(h hJSON) (string, error) {
+	cfg := &pac.ProxyResolverConfig{Script: h.PAC.script()}
+	var shared interface {
+		FindProxyForURL(u *url.URL, hostname string) (string, error)
+	}
+	if h.Pooled {
+		p, err := pac.NewProxyResolverPool(cfg, nil)
+		if err != nil {
+			return "", err
+		}
+		shared = p
+	} else {
+		p, err := pac.NewProxyResolver(cfg, nil)
+		if err != nil {
+			return "", err
+		}
+		shared = p
+	}
+	var parts []string
+	for _, q := range h.Queries {
+		u, err := url.Parse(q[0])
+		if err != nil {
+			return "", err
+		}
+		a, aerr := shared.FindProxyForURL(u, q[1])
+		fresh, err := pac.NewProxyResolver(cfg, nil)
+		if err != nil {
+			return "", err
+		}
+		f, ferr := fresh.FindProxyForURL(u, q[1])
+		parts = append(parts, "("+coqOptStr(a, aerr)+", "+coqOptStr(f, ferr)+")")
+	}
+	return "{| h_answers := " + coqfmt.List("(option (list N) * option (list N))", parts) + " |}", nil
+}
+
 // ---------------------------------------------------------------- configurations
 var partyHosts = []string{"origin.test", "other.test", "www.direct.test", "localhost", "LocalHost", "127.0.0.1", "127.8.8.8", "[::1]", "vm", "10.1.2.3"}
 var proxyHostPorts = []string{"pa.test:3128", "pb.test:8443", "pa.test:80", "10.9.9.9:1080"}
@@ -262,12 +357,17 @@ func genConfig(r *rng.R, e2e bool) cfgDesc {
 		p := &pacDesc{Table: map[string]string{}, Default: genPacValue(r)}
 		for _, h := range partyHosts {
 			hn := strings.Trim(h, "[]")
-			switch r.Intn(12) {
+			switch r.Intn(14) {
 			case 0:
 				p.ErrHosts = append(p.ErrHosts, hn)
 			case 1:
 				p.NumHosts = append(p.NumHosts, hn)
 			case 2, 3, 4:
+			case 5, 6, 7:
+				if p.ByURL == nil {
+					p.ByURL = map[string][3]string{}
+				}
+				p.ByURL[hn] = [3]string{r.Pick([]string{"http:", "https:", ":8080", ":443", "/p", "//"}), genPacValue(r), genPacValue(r)}
 			default:
 				p.Table[hn] = genPacValue(r)
 			}
@@ -312,13 +412,23 @@ func coqCfgd(d cfgDesc, pacRes string, directRes string, isLH bool) string {
 		uf, up, pacRes, directRes, cs(d.Mode), coqfmt.Bool(isLH))
 }
 
-// oracle answers for (cfg, urlhost): what the PAC script returns for that host, what the matcher says.
-// They are computed by the real resolver / matcher objects of the rig (not by the model).
-func (r *rig) oracles(urlhost string) (pacRes, directRes string, isLH bool, hostname string) {
+// oracle answers for ONE request: what the PAC script returns for the URL the implementation passed to the
+// resolver (if it asked; else the URL the proxy has for that request kind), what the direct-domains list says
+// about the host.  They are computed by FRESH instances of the real resolver / matcher, i.e. without any
+// history: the configuration's answer for that request alone.
+func (r *rig) oracles(kind int, scheme, urlhost string, calls []pacCall) (pacRes, directRes string, isLH bool, hostname string) {
 	hostname = (&url.URL{Host: urlhost}).Hostname()
 	pacRes, directRes = "None", "None"
 	if r.pac != nil {
-		s, err := r.pac.inner.FindProxyForURL(&url.URL{Host: urlhost}, "")
+		u := &url.URL{Scheme: scheme, Host: urlhost, Path: "/p"}
+		if kind == 1 {
+			u = &url.URL{Host: urlhost}
+		}
+		harg := ""
+		if len(calls) > 0 {
+			u, harg = calls[len(calls)-1].U, calls[len(calls)-1].HostArg
+		}
+		s, err := r.freshPAC(u, harg)
 		if err != nil {
 			pacRes = "(Some PacErr)"
 		} else {
@@ -326,7 +436,11 @@ func (r *rig) oracles(urlhost string) (pacRes, directRes string, isLH bool, host
 		}
 	}
 	if r.direct != nil {
-		directRes = "(Some " + coqfmt.Bool(r.direct.inner.Match(hostname)) + ")"
+		v, err := r.freshDirect(hostname)
+		if err != nil {
+			panic(err)
+		}
+		directRes = "(Some " + coqfmt.Bool(v) + ")"
 	}
 	isLH = r.hp.VerifC05IsLocalhost(hostname)
 	return
@@ -358,8 +472,8 @@ func consistent(hostname string, calls []pacCall, margs []string) bool {
 }
 
 func fCase(r *rig, kind int, scheme, urlhost string) (string, string) {
-	pacRes, directRes, isLH, hostname := r.oracles(urlhost)
 	out, calls, margs := r.proxyURL(kind, scheme, urlhost)
+	pacRes, directRes, isLH, hostname := r.oracles(kind, scheme, urlhost, calls)
 	if !consistent(hostname, calls, margs) {
 		out = "weird://oracle-asked-about-another-host"
 	}
@@ -398,36 +512,42 @@ func coqObs(o obsJSON, hostname string) string {
 	return fmt.Sprintf("{| o_dials := %s; o_recv := %s; o_ok := %s |}", coqfmt.StrList(dials), recv, coqfmt.Bool(o.OK))
 }
 
+// eCase returns "" when the request would be refused by the access control (mode deny, local host: C04),
+// which is not a routing case.
 func eCase(r *rig, j *eJSON) string {
 	connHost := net.JoinHostPort(strings.Trim(j.Host, "[]"), j.Port)
-	pacRes, directRes, isLH, hostname := r.oracles(connHost)
+	if r.desc.Mode == "deny" && r.hp.VerifC05IsLocalhost((&url.URL{Host: connHost}).Hostname()) {
+		return ""
+	}
+	part := func(reqKind, tgtKind int, scheme, urlhost string) (string, *obsJSON) {
+		o := r.request(reqKind, scheme, urlhost)
+		tscheme := scheme
+		if reqKind == 3 {
+			tscheme = "https" // inside the MITM'd TLS session the proxy gives the request the https scheme
+		}
+		pacRes, directRes, isLH, hostname := r.oracles(tgtKind, tscheme, urlhost, o.Pac)
+		return fmt.Sprintf("(Some (%s, tgt %d %s %s, %s))", coqCfgd(r.desc, pacRes, directRes, isLH),
+			tgtKind, cs(tscheme), cs(urlhost), coqObs(o, hostname)), &o
+	}
 	plain, conn, tlsS, mitm := "None", "None", "None", "None"
 	if !j.SkipPlain {
-		o := r.request(0, "http", j.PlainHost)
-		j.Plain = &o
-		plain = fmt.Sprintf("(Some (tgt 0 %s %s, %s))", cs("http"), cs(j.PlainHost), coqObs(o, hostname))
+		plain, j.Plain = part(0, 0, "http", j.PlainHost)
 	}
 	if !j.SkipConn && !r.desc.MITM {
-		o := r.request(1, "", connHost)
-		j.Connect = &o
-		conn = fmt.Sprintf("(Some (tgt 1 %s %s, %s))", cs(""), cs(connHost), coqObs(o, hostname))
+		conn, j.Connect = part(1, 1, "", connHost)
 	}
 	if !j.SkipPlain {
-		o := r.request(2, "https", connHost)
-		j.TLS = &o
-		tlsS = fmt.Sprintf("(Some (tgt 0 %s %s, %s))", cs("https"), cs(connHost), coqObs(o, hostname))
+		tlsS, j.TLS = part(2, 0, "https", connHost)
 	}
 	if r.desc.MITM {
-		o := r.request(3, "", connHost)
-		j.Mitm = &o
-		mitm = fmt.Sprintf("(Some (tgt 0 %s %s, %s))", cs("https"), cs(connHost), coqObs(o, hostname))
+		mitm, j.Mitm = part(3, 0, "", connHost)
 	}
 	att := r.desc.Attempts
 	if att < 0 {
 		att = 0 // the model's attempts is a nat; <= 0 means one attempt in both
 	}
-	return fmt.Sprintf("{| ec_cfg := %s; ec_rules := %s; ec_attempts := %d%%nat; ec_failures := %d%%nat; ec_plain := %s; ec_connect := %s; ec_tls := %s; ec_mitm := %s |}",
-		coqCfgd(r.desc, pacRes, directRes, isLH), coqRules(r.rules), att, r.desc.FailFirst, plain, conn, tlsS, mitm)
+	return fmt.Sprintf("{| ec_rules := %s; ec_attempts := %d%%nat; ec_failures := %d%%nat; ec_plain := %s; ec_connect := %s; ec_tls := %s; ec_mitm := %s |}",
+		coqRules(r.rules), att, r.desc.FailFirst, plain, conn, tlsS, mitm)
 }
 
 // ---------------------------------------------------------------- shards
@@ -585,6 +705,55 @@ func main() {
 	}
 	m.Counts["rcases"] = ss.write("rcases", "rcase", "rcase_model_ok", "rcase_prop_ok", rc, rj)
 
+	// ---- L: the localhost classifier on the host pool (one real proxy, accessor)
+	{
+		w := newWorld()
+		rg, err := newRig(cfgDesc{Mode: "direct", Attempts: 1}, w)
+		if err != nil {
+			panic(err)
+		}
+		aliases, err := hostsfile.LocalhostAliases()
+		if err != nil {
+			panic(err)
+		}
+		pool := []string{"localhost", "LocalHost", "LOCALHOST", "localhost.", "localhost.test", "notlocalhost", "origin.test", "other.test",
+			"127.0.0.1", "127.8.8.8", "127.255.255.254", "128.0.0.1", "126.0.0.1", "10.1.2.3", "0.0.0.0", "0.0.0.1", "1.0.0.0", "127.1", "0127.0.0.1",
+			"127.0.0.1.", "127.0.0", "::1", "::", "0:0:0:0:0:0:0:1", "0:0:0:0:0:0:0:0", "::ffff:127.0.0.1", "::ffff:7f00:1", "::2", "fe80::1", "2001:db8::1", ""}
+		for _, a := range aliases {
+			pool = append(pool, a, strings.ToUpper(a), a+"x")
+		}
+		var lc []string
+		var lj []any
+		for _, h := range pool {
+			lc = append(lc, fmt.Sprintf("{| lc_aliases := %s; lc_host := %s; lc_out := %s |}",
+				coqfmt.StrList(aliases), cs(h), coqfmt.Bool(rg.hp.VerifC05IsLocalhost(h))))
+			lj = append(lj, map[string]any{"kind": "localhost", "host": h, "aliases": aliases})
+		}
+		rg.close()
+		w.close()
+		m.Counts["lcases"] = ss.write("lcases", "lcase", "lcase_model_ok", "lcase_prop_ok", lc, lj)
+	}
+
+	// ---- H: look-up sequences on one resolver (bare and pooled) against fresh resolvers
+	{
+		nH := 60
+		if thorough {
+			nH = 600
+		}
+		var hc []string
+		var hj []any
+		for i := 0; i < nH+1; i++ {
+			hq := genHistory(r, i == 0)
+			c, err := hCase(hq)
+			if err != nil {
+				panic(err)
+			}
+			hc = append(hc, c)
+			hj = append(hj, hq)
+		}
+		m.Counts["hcases"] = ss.write("hcases", "hcase", "hcase_model_ok", "hcase_prop_ok", hc, hj)
+	}
+
 	// ---- D3 + E
 	nF, nE := 1000, 600
 	if thorough {
@@ -629,6 +798,9 @@ func runJob(w *world, jb job) jobResult {
 	for i := range jb.e {
 		e := jb.e[i]
 		c := eCase(rg, &e)
+		if c == "" {
+			continue
+		}
 		res.ec = append(res.ec, c)
 		res.ej = append(res.ej, e)
 	}
@@ -685,6 +857,10 @@ func runConfigs(r *rng.R, nF, nE int, ss *shardSet, m *meta) {
 		{Upstream: "socks5://pa.test:3128", Mode: "direct"},
 		{Upstream: "https://pb.test:8443", Mode: "allow", Rules: []string{":8443:rt.test:"}},
 		{Mode: "allow", Rules: []string{"origin.test:80:rt.test:9000", "::rt2.test:"}},
+		{PAC: &pacDesc{Table: map[string]string{}, Default: "DIRECT", ByURL: map[string][3]string{
+			"origin.test": {"http:", "PROXY pa.test:3128", "PROXY pb.test:8443"},
+			"other.test":  {":80", "SOCKS5 pa.test:1080", "DIRECT"},
+			"localhost":   {"https:", "HTTPS pb.test:8443", "PROXY pa.test:3128"}}}, Mode: "allow"},
 		{PAC: &pacDesc{Table: map[string]string{}, Default: "HTTPS pb.test:8443"}, Mode: "allow", MITM: true},
 		{PAC: &pacDesc{Table: map[string]string{}, Default: "SOCKS pb.test:8443"}, Mode: "allow", MITM: true},
 		{Upstream: "http://pa.test:3128", Mode: "direct", MITM: true, Direct: []string{`other\.test`}},
@@ -835,6 +1011,30 @@ func doReplay(path string, ss *shardSet, m *meta) {
 		var j rJSON
 		json.Unmarshal(data, &j)
 		m.Counts["rcases"] = ss.write("rcases", "rcase", "rcase_model_ok", "rcase_prop_ok", []string{rCase(j.Rules, j.Addr)}, []any{j})
+	case "localhost":
+		var j struct {
+			Host    string   `json:"host"`
+			Aliases []string `json:"aliases"`
+		}
+		json.Unmarshal(data, &j)
+		w := newWorld()
+		defer w.close()
+		rg, err := newRig(cfgDesc{Mode: "direct", Attempts: 1}, w)
+		if err != nil {
+			panic(err)
+		}
+		defer rg.close()
+		aliases, _ := hostsfile.LocalhostAliases()
+		c := fmt.Sprintf("{| lc_aliases := %s; lc_host := %s; lc_out := %s |}", coqfmt.StrList(aliases), cs(j.Host), coqfmt.Bool(rg.hp.VerifC05IsLocalhost(j.Host)))
+		m.Counts["lcases"] = ss.write("lcases", "lcase", "lcase_model_ok", "lcase_prop_ok", []string{c}, []any{map[string]any{"kind": "localhost", "host": j.Host, "aliases": aliases}})
+	case "history":
+		var j hJSON
+		json.Unmarshal(data, &j)
+		c, err := hCase(j)
+		if err != nil {
+			panic(err)
+		}
+		m.Counts["hcases"] = ss.write("hcases", "hcase", "hcase_model_ok", "hcase_prop_ok", []string{c}, []any{j})
 	case "func":
 		var j fJSON
 		json.Unmarshal(data, &j)
@@ -853,8 +1053,8 @@ func doReplay(path string, ss *shardSet, m *meta) {
 		w := newWorld()
 		defer w.close()
 		res := runJob(w, job{desc: j.Cfg, e: []eJSON{j}})
-		if res.err != "" {
-			fmt.Println("replay: configuration rejected:", res.err)
+		if res.err != "" || len(res.ec) == 0 {
+			fmt.Println("replay: configuration rejected or request refused by access control:", res.err)
 			os.Exit(3)
 		}
 		m.Counts["ecases"] = ss.write("ecases", "ecase", "ecase_model_ok", "ecase_prop_ok", res.ec, res.ej)
